@@ -161,6 +161,10 @@ func C38(e *simkern.Env) {
 	tp := e.Tape
 	debug := tp.Bool(1, 2)
 	nInst := 1 + tp.Draw(2)
+	hooklessNode := false
+	if tp.Bool(1, 4) {
+		nInst, hooklessNode = 2+tp.Draw(2), true // worker 0 shares the key but has no access log
+	}
 	caches := make([]int, nInst)
 	for i := range caches {
 		caches[i] = tp.Pick(-1, 0, 1)
@@ -225,6 +229,7 @@ func C38(e *simkern.Env) {
 	}
 	e.Knob("debug", debug)
 	e.Knob("caches", caches)
+	e.Knob("worker0_without_access_log", hooklessNode)
 	e.Knob("batch_limit", batchLimit)
 	e.Knob("server_compression_off", srvCompressionOff)
 	e.Knob("trace_provider", []string{"none", "valid", "per-call plan", "panicking"}[traceMode])
@@ -362,6 +367,11 @@ func C38(e *simkern.Env) {
 			WithAuth: true, NoTwin: true,
 			Setup: func(i int, srv *vgirpc.Server, h *vgirpc.HttpServer) {
 				srv.SetServiceName("SimService")
+				if hooklessNode && i == 0 {
+					// a fleet in which access logging is on for some nodes only:
+					// this worker shares the token key but writes no log
+					return
+				}
 				srv.SetDispatchHook(newHook(fmt.Sprintf("w%d", i)))
 			},
 			AuthHook: func(r *http.Request) (*vgirpc.AuthContext, error, bool) {
